@@ -138,7 +138,17 @@ def op_run(op, cfg, state, seed, keyname):
         t = {"get": h.transform_get, "submit": h.transform_submit, "response": h.transform_response}[which]
         data = {"get": c2.C2Data(metadata=b"M" * 128), "submit": c2.C2Data(id=b"1234", output=b"O" * 48), "response": c2.C2Data(output=b"T" * 64)}[which]
         try:
-            req = t.transform(data, c2.HttpRequest(method=b"GET", uri=b"", params={}, headers={b"Host": b"h"}, body=b""))
+            if len(op) > 2 and op[2] == "default-request":
+                # without an initial request the message starts from nothing: the same as starting from an explicit empty one,
+                # whatever this or another transform has produced before
+                random.seed(seed)
+                req = t.transform(data)
+                random.seed(seed)
+                ref = t.transform(data, c2.HttpRequest(method=b"", uri=b"", params={}, headers={}, body=b""))
+                if canon(req) != canon(ref):
+                    return ("DEFAULT-REQUEST-DIFFERS", canon(req), canon(ref))
+            else:
+                req = t.transform(data, c2.HttpRequest(method=b"GET", uri=b"", params={}, headers={b"Host": b"h"}, body=b""))
             res = [canon(req)]
             http = req if which != "response" else c2.HttpResponse(status=200, headers=dict(req.headers), reason=b"OK", body=req.body)
             back = t.recover(http)
@@ -285,6 +295,9 @@ def _run_history(case, ctx, cfg, state, pristine, block, keyname, beacon):
             gexc = None
         except Exception as e:  # noqa: BLE001
             got, gexc = None, (type(e).__name__, str(e)[:100])
+        if isinstance(got, tuple) and got and got[0] == "DEFAULT-REQUEST-DIFFERS":
+            ctx.violation("history.independence", f"op#{i} {op}: transform() without an initial request gives {core.short(repr(got[1]), 200)}, from an explicit empty request {core.short(repr(got[2]), 200)}", case)
+            return
         # (3)
         if op[0] == "mutate":
             ctx.mon("mutation.rejected")
@@ -337,7 +350,7 @@ def gen_ops(rng, has_rsa, n):
         elif r < 0.74:
             ops.append(("profile",))
         elif r < 0.86:
-            ops.append(("transform", rng.choice(["get", "submit", "response"])))
+            ops.append(("transform", rng.choice(["get", "submit", "response"]), rng.choice(["explicit", "default-request"])))
         elif r < 0.9 and has_rsa:
             ops.append(("session", rng.choice(["fixed", "fixed", "varying"])))
         else:
@@ -368,6 +381,15 @@ def run_shard(shard, ctx):
             keyname = rng.choice(["rsa1024_a", "rsa2048_a"])
             settings, _ = C.build_http_config(rng, keyname=keyname, extras=rng.random() < 0.7, allow_uri=rng.random() < 0.3)
             block = tlv.encode(settings) + b"\0\0"
+            if rng.random() < 0.2:
+                # a setting stated twice (dictionary semantics: first position, last value) with other settings after it
+                k = rng.randrange(0, max(1, len(settings) - 2))
+                i_, t_, v_ = settings[k]
+                if t_ in (1, 2) and i_ not in (9,):
+                    dup = (i_, t_, bytes(len(v_) - 1) + bytes([rng.randrange(1, 255)]))
+                    pos = rng.randrange(k + 1, len(settings))
+                    settings = settings[:pos] + [dup] + settings[pos:]
+                    block = tlv.encode(settings) + b"\0\0"
             if rng.random() < 0.15:
                 # the over-long User-Agent form: a 128-byte field without NUL, continued up to the NUL that follows it
                 k = next((i for i, st in enumerate(settings) if st[0] == 9), None)
